@@ -131,6 +131,14 @@ func ParseField(v reflect.Value, bytes []byte, params fieldParameters) error {
 		return fmt.Errorf("type value out of range")
 	}
 
+	// EXPLICIT tag: the contents are the complete encoding of the underlying type.
+	if params.tagNumber != nil && params.explicitTag {
+		innerParams := params
+		innerParams.tagNumber = nil
+		innerParams.explicitTag = false
+		return ParseField(v, bytes[talOff:int64(talOff)+tal.len], innerParams)
+	}
+
 	// We deal with the structures defined in this package first.
 	switch fieldType {
 	case BitStringType:
